@@ -94,7 +94,13 @@ func msgsExec(mode msgsMode) func(t *testing.T, ssc schedrun.Scenario, o vsched.
 		obs := &msgsObs{Pt: pt, Sender: sender, Msg: names, Variant: variant, Inflight: variant == "inflight", Held: variant == "held", Stage: "setup"}
 		// "~seq": the messages are delivered 60 s apart; "~gap": 11 s apart (just longer than the 10 s
 		// the client waits for a matching funding / settlement proposal)
-		gap := map[string]time.Duration{"seq": 60 * time.Second, "gap": 11 * time.Second}[variant]
+		// "~gapacc": as "~gap", and the victim's user handlers ACCEPT (C12 otherwise rejects)
+		gap := map[string]time.Duration{"seq": 60 * time.Second, "gap": 11 * time.Second, "gapacc": 11 * time.Second}[variant]
+		// "~edge": hub points where B's honest proposal waits at the hub: M's proposal is delivered 0.5 ms
+		// before the hub's 10 s wait for it ends, and every publication of the hub takes 1 ms (the wait ends
+		// while the two proposals are being matched). "~edge0": delivered exactly when the wait ends, no
+		// latency (the order of the two events is a scheduler choice; explored with bound 1).
+		edge := variant == "edge" || variant == "edge0"
 		var cases []*mcase
 		if variant != "nonce" && !strings.HasPrefix(variant, "undeliv") {
 			cases = lookupCases(sender, names)
@@ -120,7 +126,7 @@ func msgsExec(mode msgsMode) func(t *testing.T, ssc schedrun.Scenario, o vsched.
 			V := sc.V
 			vsched.StartExploration()
 			obs.Stage = "adversarial"
-			if mode.Reject {
+			if mode.Reject && variant != "gapacc" {
 				V.OnProposal, V.OnUpdate = rejectProposals, rejectUpdates
 			} else if !strings.HasPrefix(pt, "await-subfund") {
 				V.OnProposal, V.OnUpdate = nil, nil
@@ -154,6 +160,9 @@ func msgsExec(mode msgsMode) func(t *testing.T, ssc schedrun.Scenario, o vsched.
 			vRequestOut := false
 			w.Bus.Drop = func(e *wire.Envelope) bool {
 				if w.partyOf(e.Sender) == V.Idx {
+					if variant == "edge" {
+						vsched.Sleep(time.Millisecond) // publishing takes time
+					}
 					if obs.OwnKind != "" && sc.ownReq == nil {
 						switch e.Msg.(type) {
 						case client.ChannelProposal, *client.ChannelUpdateMsg:
@@ -283,6 +292,15 @@ func msgsExec(mode msgsMode) func(t *testing.T, ssc schedrun.Scenario, o vsched.
 				vsched.Recv(done)
 				vsched.Recv(done)
 			} else {
+				if edge && !sc.bobAt.IsZero() {
+					d := 10 * time.Second
+					if variant == "edge" {
+						d -= 500 * time.Microsecond
+					}
+					if wait := time.Until(sc.bobAt.Add(d)); wait > 0 {
+						vsched.Sleep(wait)
+					}
+				}
 				injectAll()
 			}
 			obs.Stage = "waiting"
@@ -662,6 +680,15 @@ type msgsPlan struct {
 	Undeliv bool
 	// HubPair family: both ends of a virtual channel collude against the hub (point hub-collude)
 	HubPair bool
+	// Edge family: the matching proposal arrives when the hub's wait for it ends
+	Edge bool
+	// Explicit further scenarios (name -> thorough only)
+	Extra []extraScenario
+}
+
+type extraScenario struct {
+	Name     string
+	Thorough bool
 }
 
 type gapFamily struct {
@@ -709,11 +736,28 @@ func msgsScenarios(mode msgsMode, plan msgsPlan) func(res *report.Result) []sche
 				}
 			}
 		}
+		if plan.Edge {
+			for _, x := range [][2]string{{"hub-fund", "hubfund/valid"}, {"hub-settle", "hubsettle/valid"}} {
+				out = append(out, schedrun.Scenario{Name: x[0] + "~edge/M/" + x[1], Mode: explore.Delay, Bound: 0, MaxSteps: 400000, Weight: 3})
+				if res.Thorough() {
+					out = append(out, schedrun.Scenario{Name: x[0] + "~edge0/M/" + x[1], Mode: explore.Delay, Bound: 1, MaxSteps: 400000, Weight: 900, Postpone: true})
+				}
+			}
+		}
+		for _, x := range plan.Extra {
+			if !x.Thorough || res.Thorough() {
+				out = append(out, schedrun.Scenario{Name: x.Name, Mode: explore.Delay, Bound: 0, MaxSteps: 400000, Weight: 3})
+			}
+		}
 		if plan.HubPair {
 			var pairs, probes []string
 			for i := range all {
 				if c := &all[i]; c.Cat == "hubpair" {
-					if strings.HasPrefix(c.Name, "hubpair/update-") {
+					if strings.HasPrefix(c.Name, "hubpair/vupdate-") {
+						for _, v := range []string{"gap", "gapacc"} {
+							out = append(out, schedrun.Scenario{Name: "hub-collude~" + v + "/M/hubpair/valid+" + c.Name, Mode: explore.Delay, Bound: 0, MaxSteps: 400000, Weight: 3})
+						}
+					} else if strings.HasPrefix(c.Name, "hubpair/update-") {
 						probes = append(probes, c.Name)
 					} else {
 						pairs = append(pairs, c.Name)
@@ -935,7 +979,7 @@ func msgsDescribe(_ schedrun.Scenario, s *vsched.Sched, o any) string {
 // msgsCommonVerdicts: clauses shared by the three checks (panics, deadlock, broken set-up).
 // done=true: nothing else can be judged.
 func msgsCommonVerdicts(prop string, ssc schedrun.Scenario, s *vsched.Sched, obs *msgsObs) (out []schedrun.Verdict, done bool) {
-	site := obs.Pt + "/" + obs.Msg
+	site := msgsSite(obs)
 	if len(s.Panics) > 0 {
 		p := s.Panics[0]
 		if harnessPanic(p) {
@@ -960,6 +1004,14 @@ func msgsCommonVerdicts(prop string, ssc schedrun.Scenario, s *vsched.Sched, obs
 	return nil, false
 }
 
+// msgsSite: "<point>/<message names>"; the timing variants "~edge" / "~edge0" are one site "<point>~edge/...".
+func msgsSite(obs *msgsObs) string {
+	if strings.HasPrefix(obs.Variant, "edge") {
+		return obs.Pt + "~edge/" + obs.Msg
+	}
+	return obs.Pt + "/" + obs.Msg
+}
+
 func probeVerdicts(prop string, obs *msgsObs) (out []schedrun.Verdict) {
 	var bad []string
 	for _, p := range obs.Probes {
@@ -968,7 +1020,7 @@ func probeVerdicts(prop string, obs *msgsObs) (out []schedrun.Verdict) {
 		}
 	}
 	if len(bad) > 0 {
-		out = append(out, schedrun.Verdict{Property: prop, Clause: "probe-failed", Site: obs.Pt + "/" + obs.Msg,
+		out = append(out, schedrun.Verdict{Property: prop, Clause: "probe-failed", Site: msgsSite(obs),
 			Detail: fmt.Sprintf("after %s from %s (and 60 s of quiet) honest requests no longer work: %s", obs.Msg, obs.Sender, strings.Join(bad, "; "))})
 	}
 	return out
